@@ -12,7 +12,7 @@ import multiprocessing, os, random, traceback
 import multi_session as ms
 import prudp_session as ps
 import l1_trace
-from sim import ticks
+from sim import ticks, quant
 
 LEVEL = "proof"
 EXTRA_TARGETS = ["nxdrv_C02"]
@@ -95,7 +95,7 @@ def stream_attack(kind):
                 return
             a, b = sim.net.stream_pair(ms.ATTACKER, ms.SERVER)
             listener(b)
-            await anyio.sleep(0.02)
+            await anyio.sleep(quant(0.02))
             if kind == "partial-header":
                 await a.send(b"\x80\x00\x10\x00\xaa"); out.injected += 1          # 5 bytes of a header, then silence
             elif kind == "bad-magic":
@@ -106,6 +106,23 @@ def stream_attack(kind):
                     await anyio.sleep(0.03)
             elif kind == "huge-announce":
                 await a.send(b"\x80\xff\xff\xff" + rng.randbytes(8)); out.injected += 1
+            elif kind == "never-reads":
+                # valid SYNs for the served port, each provoking an answer, from a peer that never reads its socket: the server's
+                # write to THIS connection may block for good, everybody else's traffic must go on
+                from nintendo.nex import prudp
+                enc = prudp.PRUDPLiteMessage(out.settings_s)
+                a.never_reads, a.window = True, 64
+                for j in range(40):
+                    p = prudp.PRUDPPacket(0, 4)
+                    p.source_type = p.dest_type = 10
+                    p.source_port, p.dest_port = 20 + j % 10, out.spec.vports[0] if isinstance(out.spec.vports[0], int) else out.spec.vports[0][0]
+                    p.session_id = p.packet_id = p.fragment_id = p.substream_id = 0
+                    p.minor_version, p.supported_functions, p.max_substream_id = 0, 0, 0
+                    p.connection_signature = b""
+                    p.payload = b""
+                    p.signature = enc.calc_packet_signature(p, b"", b"")
+                    await a.send(enc.encode(p)); out.injected += 1
+                    await anyio.sleep(quant(0.02))
             await anyio.sleep(30)
         sim.loop.create_task(hostile())
     return attack
@@ -253,7 +270,7 @@ def run(ctx):
         for r in range(2 if quick else 8):
             jobs.append((n, dict(sp, jitter=ctx.rng.choice([1, 2]), rounds=4), ctx.rng.getrandbits(32), ("datagram", ctx.rng.choice([0.0, 0.3])))); n += 1
     st_spec = dict(transport="lite", server_version=1, clients=[dict(version=1, vport=1), dict(version=1, vport=1)], vports=[1])
-    for kind in ("partial-header", "bad-magic", "garbage-stream", "huge-announce"):
+    for kind in ("partial-header", "bad-magic", "garbage-stream", "huge-announce", "never-reads"):
         for r in range(1 if quick else 4):
             jobs.append((n, st_spec, ctx.rng.getrandbits(32), ("stream", kind))); n += 1
     # a hostile peer needs no malformed traffic: a valid connection whose handler is busy, flooded with messages nobody reads
